@@ -90,19 +90,23 @@ def check_direct(case):
             step += 1
             nnodes = sum(len(l) for l in part.get_node_list())
             ar = pspec.get("K", 2 ** d if pspec["cls"] == "DimensionBinaryPartition" else 2)
-            if op[0] == "deepen":
-                if len(part.get_node_list()[part.get_depth()]) * ar + nnodes > MAX_NODES:
-                    continue
-                part.deepen()
-            else:
-                if nnodes + ar > MAX_NODES:
-                    continue
-                lv = leaves(part.get_root())
-                leaf = lv[op[1] % len(lv)]
-                newlayer = leaf.get_depth() >= part.get_depth()
-                if not newlayer:
-                    out_of_order = True
-                part.make_children(leaf, newlayer=newlayer)
+            try:
+                if op[0] == "deepen":
+                    if len(part.get_node_list()[part.get_depth()]) * ar + nnodes > MAX_NODES:
+                        continue
+                    part.deepen()
+                else:
+                    if nnodes + ar > MAX_NODES:
+                        continue
+                    lv = leaves(part.get_root())
+                    leaf = lv[op[1] % len(lv)]
+                    newlayer = leaf.get_depth() >= part.get_depth()
+                    if not newlayer:
+                        out_of_order = True
+                    part.make_children(leaf, newlayer=newlayer)
+            except Exception as e:  # noqa: BLE001 - a split of a valid cell that raises yields no tiling at all
+                return Outcome(violation={"clause": "split-raises", "msg": "%s: %s" % (type(e).__name__, str(e)[:200]), "round": step},
+                               classes=classes)
             if bad:
                 clause, msg = bad[0]
                 return Outcome(violation={"clause": clause, "msg": msg, "round": step}, classes=classes)
